@@ -488,6 +488,17 @@ fn run_case(gen: &str, index: u64, seed: u64, _tier: Tier, rep: &mut Report) {
             check_huff_payload(&payload, 8, rep);
             rep.count("huff_eos_variants");
             rep.sig(hash64(&("he", &payload)));
+            // EOS closing the symbols, then whole bytes of ones (1..5: short of, exactly and beyond a second EOS)
+            let mut w = BitWriter::default();
+            for (b, l) in &codes {
+                w.put(*b, *l);
+            }
+            w.put(0x3fff_ffff, 30);
+            let mut payload = w.finish_ones();
+            payload.extend(std::iter::repeat(0xff).take(1 + rng.usize(5)));
+            check_huff_payload(&payload, 8, rep);
+            rep.count("huff_eos_then_bytes_of_ones");
+            rep.sig(hash64(&("hf", &payload)));
         }
         "str_huge_announced_length" => {
             // a literal that announces far more octets than follow (up to the top of the integer
